@@ -27,6 +27,11 @@ pub fn profile_from(s: &str) -> Profile {
 
 fn pick_len(r: &mut Rng, maxp: usize, prof: Profile) -> usize {
     let m = MAX_FRAGMENT_SIZE;
+    if prof == Profile::Frag && r.chance(1, 25) {
+        // many fragments: the per-fragment flag words of sender and receiver are 64 bits wide
+        let k = *r.pick(&[31usize, 32, 33, 40, 63, 64, 65, 70, 127, 128, 130]);
+        return (k * m + *r.pick(&[0usize, 1, 700])).min(maxp);
+    }
     let v = match r.below(if prof == Profile::Frag { 6 } else { 10 }) {
         0 => r.below(4) as usize,                                     // 0..3 (ambiguous short payloads)
         1 => {
@@ -41,7 +46,13 @@ fn pick_len(r: &mut Rng, maxp: usize, prof: Profile) -> usize {
         6 => r.range(4, 1448) as usize,
         7 => r.range(4, 200) as usize,
         8 => r.range(4, 40) as usize,
-        _ => r.range(4, 20 * m as u64) as usize,
+        _ => if r.chance(1, 12) {
+            // many fragments: the per-fragment flag words of sender and receiver are 64 bits wide
+            let k = *r.pick(&[31usize, 32, 33, 40, 63, 64, 65, 70, 127, 128, 130]);
+            k * m + *r.pick(&[0usize, 1, 700])
+        } else {
+            r.range(4, 20 * m as u64) as usize
+        },
     };
     v.min(maxp)
 }
@@ -85,7 +96,8 @@ pub fn run_random(tr: &mut Trace, run: u64, seed: u64, prof: Profile) -> RunStat
     };
     let pbase = [near(&mut r, 1 << 20, pw), near(&mut r, 1 << 20, pw)];
     let fbase = [near(&mut r, 1 << 32, fw), near(&mut r, 1 << 32, fw)];
-    let alloc_choices = [3000usize, 6000, 20000, 100000, 1000000];
+    // (exact multiples of the fragment size are a class of their own: rounding up must leave them alone)
+    let alloc_choices = [3000usize, 6000, 20000, 100000, 1000000, 2 * 1448, 4 * 1448, 14 * 1448, 1448 * 100];
     let rx_alloc = [*r.pick(&alloc_choices), *r.pick(&alloc_choices)];
     let bw_choices: &[u32] = match prof {
         Profile::Rate => &[1472, 1600, 2500, 3000, 3600, 20500, 100000, 1000000, 2000000],
@@ -144,7 +156,7 @@ pub fn run_random(tr: &mut Trace, run: u64, seed: u64, prof: Profile) -> RunStat
         }
     }
 
-    let maxp = |e: usize, p: &Pair| -> usize { p.cfg.rx_alloc[1 - e].min(60000) };
+    let maxp = |e: usize, p: &Pair| -> usize { p.cfg.rx_alloc[1 - e].min(200000) };
 
     let mut last_due = [0u64; 2]; // FIFO in ideal mode
     let mut visit = |p: &mut Pair, tr: &mut Trace, r: &mut Rng, e: usize, faults: bool, st: &mut RunStats, receive: bool| {
